@@ -228,8 +228,12 @@ def run(ctx):
     # recorded finding F4: a null ORDER BY key in rbql-js (KNOWN-FINDING while it reproduces)
     importlib.import_module('props.nullkeys').run(ctx, THEOREM, 'C02')
 
+    # the early-stop clause for rbql-js over a byte stream that never ends (finding D26)
+    importlib.import_module('props.c02stream').run(ctx)
 
 def replay(ctx, case):
+    if case.get('part') == 'c02stream':
+        return importlib.import_module('props.c02stream').replay(ctx, case)
     if case.get('part') == 'typed_sources':
         e = ec.canon_model(lib.run_model(300, [ec.model_arg(case)], shards=1)[0])
         g = lib.run_impl_py('c02src', [case], shards=1, extra_env={'VERIF_SCRATCH': lib.BUILD})[0]
